@@ -54,7 +54,7 @@ Each line is the entry of `known_findings.json` (`fixed`), which names the commi
 input / history.  A fixed entry suppresses nothing: the check passes on the repaired tree and
 reports the violation again if it returns (verified for the fixes of this round by reverse-applying
 the commit and running the check: C07 dd322c8, C08 269f194 and 13aa2c2 are reported with a
-concrete replay; C14 cbd93cb likewise).
+concrete replay; C14 cbd93cb and C16 280e6bf likewise).
 
 ''' + "\n".join("* " + f[len("fixed: "):] for f in fixed) + r'''
 
@@ -133,16 +133,19 @@ corrected with `gcf_k` turned out to violate C04 and C11 once the generator cove
 
 ### 9.5 Seeded changes (independent sub-agents, property text + scratch worktree only)
 
-One hundred and twenty-two changes are kept under `seeded/<id>/` (`patch.diff`, `demo.py`, `meta.json`; each
+One hundred and fifty changes are kept under `seeded/<id>/` (`patch.diff`, `demo.py`, `meta.json`; each
 confirmed by me in a scratch worktree: demo passes on HEAD, fails with the change, 176 tests pass with it): forty
 from the first round (two per property), ten from a second round of eight agents, seventeen from a third round
 of twelve agents, thirty-one from a fourth round of twenty agents that were asked to avoid the most obvious
 slips (interactions between functions, fallback branches, caches, argument defaults, unusual option
 combinations), and twenty-six from a fifth round of twenty agents that were pointed at state surviving across
 calls / objects / processes, numerical edge cases, error paths followed by a retry, rarely used entry points and
-effects that only show in a later operation; thirty-six further submissions duplicated earlier changes and were
-not kept.  C04c, C11a, C11b and C11c were re-expressed on the tree in which the contact-point limits are corrected
-with `gcf_k`, C10g on the tree in which `compute_poc` converts its input to floating point, and re-confirmed.
+effects that only show in a later operation, and twenty-eight from a sixth round of twenty agents that were told
+to stay away from caches and narrowed except clauses and to look at boundaries ordinary data do not hit, unusual
+but legitimate array properties and element types, units and magnitudes, argument type variety, text details and
+rarely used entry points; forty-eight further submissions duplicated earlier changes and were not kept.  C04c, C11a, C11b and C11c were re-expressed on the tree in which the contact-point limits are corrected
+with `gcf_k`, C10g on the tree in which `compute_poc` converts its input to floating point, C16g and C16i on the
+tree in which rating containers store `range_x` as plain floats, and re-confirmed.
 Two earlier seeds were retired: C08f (in-place normalisation that failed for integer arrays) is harmless since
 `compute_poc` converts its input to floating point (ed7126e; its demonstration passes), and C14d (`preproc.apply` sorted the list returned by `available()` in place) only
 broke the property because `available()` handed out its cached list; after the repair cbd93cb the change is
@@ -216,6 +219,22 @@ Checks that had to be strengthened because a seed was first missed or reported o
   Strengthening C14 for C14f exposed that the unchanged `available()` itself handed out its cached list (repaired,
   cbd93cb); the thorough tier of C08 (element-type stream added in the fourth round) found the integer-input
   defect ed7126e.
+
+* sixth round (13 of 28 were first missed, 3 more had no failing input): C01 (coarsely sampled curves fitted on an
+  interval that holds 5–7 samples – C01h), C07 (time stamps that are not one uniform grid: a retract sampled at
+  another rate, a dwell – C07h), C08 (constant offsets of 2¹⁷–2²⁰ times the signal amplitude, judged for the
+  direct estimators – C08h), C09 (a reference pipeline built with scikit-learn alone from the documented rules,
+  SVR regressors with `lda` None / False / True – C09f: the “directly built rater” used before shared the mutated
+  constructor; response arrays of integer type – C09e), C10 (the caller's own training arrays are passed, not
+  copies – C10h; the same keyword arguments in every order – C10i), C14 (tuples through every entry point – C14i),
+  C15 (sample weights for int / int8 / float32 responses – C15f), C16 (a recorded curve whose approach/retract
+  switch is moved by segment discovery – C16j), C17 (datasets whose approach does not end at its maximal force;
+  the value clauses are now also evaluated on the stub datasets of the model tie – C17f), C18 (NaN as Python
+  float, numpy scalars of both widths and a computed NaN – C18f), C19 (a second batch run into the same results
+  directory; a legacy-format profile handed to the batch fit; the type of integer settings – C19i/j), C20 (maps
+  that mix long and short curves so that ratings of exactly 0 and non-trivial ratings both occur – C20g).  A side
+  remark of one agent (an interval given with numpy scalars makes the whole rating container unreadable) was
+  reproduced, repaired (280e6bf) and is covered by fit variant N of `./check C16`.
 
 ### 9.6 Observations that are not findings
 
